@@ -162,6 +162,58 @@ def coq_list(xs):
     return '[' + '; '.join(('(%d)' % x) if x < 0 else str(x) for x in xs) + ']'
 
 
+def kernel_call(module, fn, inputs, tag='f', shard=400):
+    """Evaluate the Gallina function `fn : list Z -> list Z` of `module` on every input with vm_compute (kernel only,
+    e.g. for PrimFloat models that are not extracted).  Sharded over coqc processes."""
+    if not inputs:
+        return []
+    d = os.path.join(BUILD, 'kernel')
+    os.makedirs(d, exist_ok=True)
+    shards = [inputs[i:i + shard] for i in range(0, len(inputs), shard)]
+    procs = []
+    for k, sh in enumerate(shards):
+        name = 'Call_%s_%d_%d' % (re.sub(r'\W', '_', tag), os.getpid(), k)
+        path = os.path.join(d, name + '.v')
+        body = ['From Coq Require Import ZArith List.', 'Require Import %s.' % module, 'Import ListNotations.', 'Open Scope Z_scope.',
+                'Definition cases : list (list Z) := [', ';\n'.join(coq_list(xs) for xs in sh), '].',
+                'Definition show (l : list Z) : list Z := (Z.of_nat (length l)) :: l.',
+                'Eval vm_compute in flat_map (fun c => show (%s c)) cases.' % fn]
+        with open(path, 'w') as f:
+            f.write('\n'.join(body) + '\n')
+        procs.append((name, len(sh), subprocess.Popen('ulimit -s unlimited 2>/dev/null; timeout 900 coqc -Q %s Mido %s' % (COQ, path),
+                                                      shell=True, cwd=d, stdout=subprocess.PIPE, stderr=subprocess.STDOUT)))
+        if len(procs) % NPROC == 0:
+            for _, _, p in procs[-NPROC:]:
+                p.wait()
+    res = []
+    for name, n, p in procs:
+        out = p.communicate()[0].decode('utf-8', 'replace')
+        for ext in ('.v', '.vo', '.vok', '.vos', '.glob'):
+            try:
+                os.remove(os.path.join(d, name + ext))
+            except OSError:
+                pass
+        try:
+            os.remove(os.path.join(d, '.' + name + '.aux'))
+        except OSError:
+            pass
+        if p.returncode != 0:
+            raise InfraError('kernel evaluation failed: ' + out[-2000:])
+        m = re.search(r'=\s*\[(.*?)\]\s*:\s*list Z', out, re.S)
+        if not m:
+            raise InfraError('cannot parse kernel output: ' + out[-1000:])
+        flat = [int(x.replace('(', '').replace(')', '')) for x in m.group(1).replace('\n', ' ').split(';') if x.strip()]
+        part, i = [], 0
+        while i < len(flat):
+            k = flat[i]
+            part.append(flat[i + 1:i + 1 + k])
+            i += 1 + k
+        if len(part) != n:
+            raise InfraError('kernel returned %d results for %d cases' % (len(part), n))
+        res += part
+    return res
+
+
 def kernel_run(cases, tag='k'):
     """Evaluate run comp inp for each case with the kernel's vm_compute (coqc on a generated file).
     Returns list of [ints].  Used to cross-check the extracted model on a sample and on every disagreement."""
